@@ -1,7 +1,7 @@
 SPECIFICATION TraceSpec
 CONSTANTS
   MaxLen = 100
-  Items = {1,2,3,4,5,6,7,8,9}
+  Items = {1,2,3,4,5,6,7,8,9,10}
   Det = FALSE
   CopyKinds = {"copy", "copycopy", "deepcopy", "pickle"}
 POSTCONDITION TraceAccepted
